@@ -109,8 +109,12 @@ def gen_condition(rng, vals, d: Definition, kinds=None):
                                 "currentdate", "currentdate-value", "true", "false"])
     neg = rng.random() < 0.35
     mt = rng.choice(MATCH)
+    if kind in ("header", "header-list", "envelope", "address", "address-list", "body",
+                "currentdate") and rng.random() < 0.12:
+        mt = ":regex"  # a match type that belongs to an extension, plain or negated
+        d.exts.add("regex")
     tag = (":not" + mt[1:]) if neg else mt
-    d.kinds.append("cond:" + kind + (":neg" if neg else ""))
+    d.kinds.append("cond:" + kind + (":neg" if neg else "") + (":regex" if mt == ":regex" else ""))
     if kind == "header":
         n, v = vals.s(), vals.s()
         d.conditions.append((n, tag, v))
@@ -127,7 +131,7 @@ def gen_condition(rng, vals, d: Definition, kinds=None):
         d.tests.append((neg, "exists"))
         d.strings += names
     elif kind == "size":
-        lim = rng.choice(["100k", "1", "10M", "2G", "4096"])
+        lim = rng.choice(["100k", "1", "10M", "2G", "4096", "0", 0, 1, 4096, 2 ** 31, 2 ** 63])
         d.conditions.append(("size", rng.choice([":over", ":under"]), lim))
         d.tests.append((False, "size"))
         d.numbers.append(lim)
@@ -165,8 +169,9 @@ def gen_condition(rng, vals, d: Definition, kinds=None):
         zone, part = "+0100", "date"
         rel = rng.choice(["gt", "ge", "lt", "le", "eq", "ne"])
         v = vals.lst(1, 2)
-        d.conditions.append(("currentdate", ":zone", zone, ":value", rel, part) + tuple(v))
-        d.tests.append((False, "currentdate"))
+        d.conditions.append(("currentdate", ":zone", zone, ":notvalue" if neg else ":value",
+                             rel, part) + tuple(v))
+        d.tests.append((neg, "currentdate"))
         d.strings += [zone, rel, part] + v
         d.exts.update(["date", "relational"])
         d.kinds[-1] = "cond:currentdate-value"
